@@ -34,6 +34,19 @@ def _builtin():
     return wn
 
 
+
+def _absdiff_max(a, b):
+    """largest |a - b|; NaN on both sides is agreement, NaN on one side only is an infinite difference (np.nanmax alone would hide it)"""
+    import numpy as _np
+    a, b = _np.asarray(a, dtype=float), _np.asarray(b, dtype=float)
+    if a.size == 0:
+        return 0.0
+    if (_np.isnan(a) != _np.isnan(b)).any():
+        return float("inf")
+    d = _np.abs(a - b)
+    return 0.0 if _np.isnan(d).all() else float(_np.nanmax(d))
+
+
 def run(tier, seed, shard, nshards):
     import numpy as np
     import wntr
@@ -152,7 +165,7 @@ def run(tier, seed, shard, nshards):
                                             a = getattr(res, grp)[key].values.astype(float)
                                             b = getattr(ref, grp)[key].loc[times].values.astype(float) if len(times) else a
                                             if a.size:
-                                                worst = max(worst, float(np.nanmax(np.abs(a - b))))
+                                                worst = max(worst, _absdiff_max(a, b))
                                         if worst > 1e-6:
                                             problem = "steps reported before the failure differ from the fault-free run by %g" % worst
                             if problem:
